@@ -64,6 +64,12 @@ class C18(Prop):
                 "<meta a='1' b='2'>", "<meta b='2' a='1'>", "", " ", "<b>é</b>", "<b>é</b>"]
         # payloads that differ only where an encoder might substitute (lone surrogates are refused today)
         pool += ["caf\udce9", "caf\udce8", "caf?", "caf\ufffd", "x\ud800", "x?"]
+        # directed: every pair of the look-alike payloads, through every way of making a head_content
+        alike = ["caf\udce9", "caf\udce8", "caf?", "caf\ufffd", "x", "y", "x ", "<title>x</title>"]
+        for how in ("html", "str", "tag", "title", "withdep_json"):
+            for i_, a_ in enumerate(alike):
+                for b_ in alike[i_:]:
+                    gens.append({"kind": "pair", "a": a_, "b": b_, "how": how})
         for _ in range(450 if tier == "quick" else 4500):
             a = rnd.choice(pool) if rnd.random() < 0.7 else gamma.rand_text(rnd, 12)
             b = rnd.choice(pool + [a, a]) if rnd.random() < 0.8 else gamma.rand_text(rnd, 12)
